@@ -202,6 +202,24 @@ pub fn run_renko(c: &RenkoCase, st: &mut Stats) -> CaseResult {
 			let got = out.clone().nth(k);
 			ensure!(got == blocks.get(k).copied(), "C17:renko:nth", "step {step}: nth({k}) = {:?} expected {:?}", got, blocks.get(k));
 		}
+		// ... also after a part of the output has been consumed (every split for short outputs, a few for long ones)
+		let takes: Vec<usize> = if n <= 8 { (1..=n).collect() } else { vec![1, 2, n / 2, n - 1, n] };
+		for &taken in &takes {
+			let mut it = out.clone();
+			for j in 0..taken {
+				ensure!(it.next() == Some(blocks[j]), "C17:renko:next", "step {step}: next() #{j} differs from the collected block");
+			}
+			let rest = n - taken;
+			ensure!(it.len() == rest && it.size_hint() == (rest, Some(rest)) && it.clone().count() == rest, "C17:renko:len-partial", "step {step}: after {taken} of {n} blocks len/size_hint/count do not report {rest}");
+			ensure!(it.clone().last() == if rest > 0 { blocks.last().copied() } else { None }, "C17:renko:last-partial", "step {step}: after {taken} of {n} blocks last() is wrong");
+			for k in [0usize, 1, rest / 2, rest.saturating_sub(1), rest, rest + 1] {
+				let got = it.clone().nth(k);
+				ensure!(got == blocks.get(taken + k).copied(), "C17:renko:nth-partial", "step {step}: after {taken} of {n} blocks nth({k}) = {:?} expected {:?}", got, blocks.get(taken + k));
+			}
+			let stepped: Vec<RenkoBlock> = it.clone().take(64).step_by(2).collect();
+			let expect: Vec<RenkoBlock> = blocks[taken..].iter().take(64).step_by(2).copied().collect();
+			ensure!(stepped == expect, "C17:renko:step_by-partial", "step {step}: after {taken} of {n} blocks step_by(2) yields {} blocks, expected {}", stepped.len(), expect.len());
+		}
 		let next_up = up * (1.0 + b);
 		let next_lo = lo * (1.0 - b);
 		if !coarse {
